@@ -136,6 +136,55 @@ func c15Dense(r *rng, tag string) [][]string {
 	return es
 }
 
+// an algorithm selection drawn from the whole documented grid (splines rarely: 35-40 % of spline runs fail by themselves)
+func c15RareSelection(r *rng) spec.Options {
+	o := spec.Options{P1: pick(r, "", "dfs", "greedy"), P2: pick(r, "", "longestpath"), P4: pick(r, "", "bk", "bk", "valign", "packright", "sinkcoloring"),
+		P5: pick(r, "", "ortho", "ortho", "straight", "polyline", "noop", "splines")}
+	if o.P4 == "bk" && r.chance(60) {
+		o.BK = iptr(r.intn(4))
+	}
+	return o
+}
+
+// a small graph with every feature a special case might key on
+func c15FeatureRich(r *rng, tag string, o spec.Options) spec.Call {
+	n := func(i int) string { return fmt.Sprintf("%s%d", tag, i) }
+	depth := r.between(5, 6)
+	var es [][]string
+	for i := 0; i+1 < depth; i++ {
+		es = append(es, []string{n(i), n(i + 1)})
+	}
+	es = append(es, []string{n(0), n(depth - 1)})                // long edge over the whole chain
+	es = append(es, []string{n(depth - 2), n(depth + 1)})         // a sibling in the last layer: the long edge is not vertical
+	es = append(es, []string{n(0), n(depth + 1)})                 // a second long edge
+	es = append(es, []string{n(1), n(depth - 1)})                 // and a third, one layer shorter
+	es = append(es, []string{n(2), n(2)})                         // self-loop
+	for c := r.between(2, 3); c > 0; c-- {
+		es = append(es, []string{n(1), n(2)}) // parallel bundle
+	}
+	es = append(es, []string{n(3), n(2)})                                   // antiparallel pair
+	es = append(es, []string{tag + "_other_component_a", tag + "_other_component_with_a_long_identifier"}) // second component, long ids
+	if r.chance(50) {
+		es = append(es, []string{tag + "x", tag + "y"}, []string{tag + "y", tag + "x"}) // third component: a two-cycle
+	}
+	shuffleEdges(r, es)
+	oo := o
+	switch r.intn(3) {
+	case 0:
+		oo.FixedSize = &[2]float64{float64(r.between(2, 12) * 10), float64(r.between(2, 6) * 10)}
+	case 1:
+		for _, id := range nodeIDs(es) {
+			if r.chance(75) { // some entries missing
+				oo.Sizes = append(oo.Sizes, spec.NodeSize{ID: id, W: float64(r.between(1, 12) * 10), H: float64(r.between(1, 6) * 10)})
+			}
+		}
+	}
+	if r.chance(50) {
+		oo.LayerSpacing = fptr(float64(r.between(1, 20) * 10))
+	}
+	return spec.Call{Edges: es, Opts: oo}
+}
+
 // k versions of one layered diagram: same node ids and layers, targets of edge pairs between two adjacent layers swapped
 func c15Related(r *rng, k int) []spec.Call {
 	es, lay := famLayeredL(r)
@@ -463,7 +512,7 @@ func (cx *Ctx) runC15() {
 	r := rng{s: mix(cx.Seed, 0xC15)}
 
 	var jobs []*spec.Job
-	nSharedOpts, nAllWide, nTwoClasses, nRelated := 0, 0, 0, 0
+	nSharedOpts, nAllWide, nTwoClasses, nRelated, nFeature := 0, 0, 0, 0, 0
 	for i := 0; i < nSpecs; i++ {
 		k := r.between(2, 8)
 		calls := cx.c15Calls(&r, k)
@@ -511,6 +560,19 @@ func (cx *Ctx) runC15() {
 			nRelated++
 			k = r.between(2, 5)
 			calls = c15Related(&r, k)
+		} else if !dense && r.chance(9) {
+			// ONE RARE PATH: 2-4 callers share an algorithm selection drawn from the whole grid, and every caller's graph has
+			// every feature a special case might key on: an edge spanning 4-5 layers (>= 3 virtual nodes), a self-loop, a
+			// bundle of parallel edges, an antiparallel pair, a second component, a long node id, per-node sizes with a
+			// missing entry. State shared only on "algorithm X and input feature Y" is reached by all of them at once.
+			fam = "featurerich"
+			nFeature++
+			k = r.between(2, 4)
+			o := c15RareSelection(&r)
+			calls = nil
+			for c := 0; c < k; c++ {
+				calls = append(calls, c15FeatureRich(&r, fmt.Sprint("f", c), o))
+			}
 		} else if !dense && r.chance(8) {
 			// TWO CLASSES of callers: k = 4-6 callers, each on one of two algorithm selections A and B (>= 2 callers each)
 			// that differ in the rarely used, expensive algorithms. Resources shared between two code paths - a gate with two
@@ -703,6 +765,7 @@ func (cx *Ctx) runC15() {
 		"specs_with_3_to_5_callers_all_above_size_thresholds": nAllWide,
 		"specs_with_two_classes_of_callers_on_one_simulated_machine": nTwoClasses,
 		"specs_whose_callers_lay_out_versions_of_one_diagram": nRelated,
+		"specs_whose_callers_share_a_rare_algorithm_selection_on_feature_rich_graphs": nFeature,
 		"distinct_schedule_fingerprints": len(fps),
 		"context_switches_total":    switches,
 		"yields_total":              yields,
@@ -889,6 +952,18 @@ func (cx *Ctx) c15Real(r *rng) map[string]any {
 		}
 		cand = append(cand, &spec.Job{ID: i, Kind: "multi", Calls: []spec.Call{c}, Res: []spec.Resolution{{Adv: "identity"}, {Adv: "reverse"}}, Budgets: cx.Budgets})
 	}
+	var rich []spec.Call
+	for i := 0; i < 3; i++ {
+		// three rare algorithm selections, four feature-rich callers each (adjacent in the input list, so that the
+		// goroutines that overlap in time run the same selection)
+		o := c15RareSelection(r)
+		if o.P5 == "splines" {
+			o.P5 = "ortho"
+		}
+		for c := 0; c < 4; c++ {
+			rich = append(rich, c15FeatureRich(r, fmt.Sprintf("g%d_%d_", i, c), o))
+		}
+	}
 	for i := 0; i < 4; i++ {
 		cand = append(cand, &spec.Job{ID: len(cand), Kind: "multi", Calls: []spec.Call{{Edges: c15Dense(r, fmt.Sprint("d", i)), Opts: spec.Options{P5: "straight"}}},
 			Res: []spec.Resolution{{Adv: "identity"}, {Adv: "reverse"}}, Budgets: cx.Budgets})
@@ -906,6 +981,7 @@ func (cx *Ctx) c15Real(r *rng) map[string]any {
 	if len(calls) > 54 {
 		calls = append(calls[:48], calls[len(calls)-6:]...)
 	}
+	calls = append(calls, rich...)
 	// versions of two diagrams (same ids and layers, different wiring): memos and caches keyed too coarsely
 	for i := 0; i < 2; i++ {
 		calls = append(calls, c15Related(r, 4)...)
